@@ -150,6 +150,25 @@ def clientHandle (lk : Lookup) (C : VMap) : SMsg → COut
   | .refuse r => .refusedErr r
   | .queryReply t => .queryDone (decodeTable lk t)
 
+/-! ### message decoding in front of the handlers
+The embedded version data are raw CBOR items of the handshake message; if one of them is not
+well formed (or has invalid built-in tag content) the message as a whole fails to decode and the
+protocol reports a decode error without calling the handler. -/
+
+def SMsg.wellFormed : SMsg → Bool
+  | .accept _ d => wellFormedOne d
+  | .refuse _ => true
+  | .queryReply t => t.all fun p => wellFormedOne p.2
+
+/-- message decoding + `Client.messageHandler` -/
+def clientReceive (lk : Lookup) (C : VMap) (msg : SMsg) : COut :=
+  if msg.wellFormed then clientHandle lk C msg else .err "decode"
+
+/-- message decoding + `Server.handleProposeVersions`; `none` = the proposal did not decode:
+    protocol error, nothing is sent -/
+def serverReceive (lk : Lookup) (S : VMap) (P : RawMap) : Option SOut :=
+  if P.all (fun p => wellFormedOne p.2) then some (serverNegotiate lk S P) else none
+
 /-- One whole handshake between an honest initiator proposing `C` (message map in the order
     given) and a responder configured with `S`. `none` for the initiator = nothing arrives. -/
 def handshake (lk : Lookup) (C S : VMap) : SOut × Option COut :=
